@@ -245,7 +245,7 @@ func VerifH_C20_elements() {
 			got, count = x, len(x)
 		}
 	case 3: // multi fetch with concrete ids
-		ids := []int64{7, 0, 123456789012}[:vRange("ids", 1, 3)]
+		ids := []int64{123456789012, 7, 0, 98765432109}[:vRange("ids", 1, 4)]
 		list := ""
 		for i, v := range ids {
 			if i > 0 {
